@@ -128,7 +128,9 @@ func checkC15(c C15Case) Verdict {
 		if strings.Contains(out, "CMT") || strings.Contains(out, "*/") || strings.Contains(out, "/*") {
 			return bad(true, "comment text reached the output: source %q renders %q", src.String(), out)
 		}
-		strip := func(s string) string { return strings.Join(strings.FieldsFunc(s, func(r rune) bool { return r == ' ' || r == '\t' || r == '\r' || r == '\n' }), "") }
+		strip := func(s string) string {
+			return strings.Join(strings.FieldsFunc(s, func(r rune) bool { return r == ' ' || r == '\t' || r == '\r' || r == '\n' }), "")
+		}
 		want := strip(nb.outBefore + stripped.String() + nb.outAfter)
 		if strip(out) != want {
 			return bad(true, "non-whitespace text changed: source %q renders %q; its non-whitespace characters should be %q", src.String(), out, want)
